@@ -139,8 +139,54 @@ IS_SPARSE = {'assumed': True, 'ghost_params': {'SPARSE': 'int'}, 'requires': {},
              'ensures': {'the_layout_in_use': 'result == SPARSE'}}      # mj_isSparse(m): the Jacobian layout of this model (named by a ghost)
 
 
+# treeIterInit(m, d, i, iter): which trees a constraint row touches directly (the documented incidence table), or the generic Jacobian scan
+ITER_DEFS = {
+    'TY': 'd.efc_type[i]', 'ID': 'd.efc_id[i]',
+    'CONTACT': 'TY == mjCNSTR_CONTACT_FRICTIONLESS or TY == mjCNSTR_CONTACT_PYRAMIDAL or TY == mjCNSTR_CONTACT_ELLIPTIC',
+    'G': 'lambda s: d.contact[ID].geom[s]',
+    'GEOMS': 'G(0) >= 0 and G(1) >= 0',
+    'CW': 'TY == mjCNSTR_EQUALITY and (m.eq_type[ID] == mjEQ_CONNECT or m.eq_type[ID] == mjEQ_WELD)',
+    'EB': 'lambda o: (m.site_bodyid[o] if m.eq_objtype[ID] == mjOBJ_SITE else o)',
+    'SPECIAL': 'lambda t0, t1: iter.trees[0] == t0 and iter.trees[1] == t1 and iter.jac_idx == -1 and iter.tree_prev == -1',
+    'BODY_OK': 'lambda b: 0 <= b and b < m.nbody',
+}
+ITER_INIT = {
+    'ghost_params': {'NEFC': 'int'},
+    'params': {'m': {'n': 1, 'ptrfields': {'dof_treeid': {'len': 'm.nv'}, 'jnt_dofadr': {'len': 'm.njnt'}, 'body_treeid': {'len': 'm.nbody'}, 'geom_bodyid': {'len': 'm.ngeom'},
+                                           'eq_type': {'len': 'm.neq'}, 'eq_obj1id': {'len': 'm.neq'}, 'eq_obj2id': {'len': 'm.neq'}, 'eq_objtype': {'len': 'm.neq'},
+                                           'site_bodyid': {'len': 'm.nsite'}}},
+               'd': {'n': 1, 'ptrfields': {'efc_type': {'len': 'NEFC'}, 'efc_id': {'len': 'NEFC'}, 'contact': {'len': 'd.ncon'}}},
+               'iter': {'n': 1}},
+    'defs': ITER_DEFS,
+    'requires': {
+        'sizes': '0 <= i and i < NEFC and NEFC < 2**30 and ' + ' and '.join('0 <= m.%s and m.%s < 2**30' % (k, k) for k in ('nv', 'njnt', 'nbody', 'ngeom', 'neq', 'nsite')) + ' and 0 <= d.ncon and d.ncon < 2**30',
+        'row_object_in_range': 'implies(TY == mjCNSTR_FRICTION_DOF, 0 <= ID and ID < m.nv) and implies(TY == mjCNSTR_LIMIT_JOINT, 0 <= ID and ID < m.njnt) and '
+                               'implies(CONTACT, 0 <= ID and ID < d.ncon and G(0) < m.ngeom and G(1) < m.ngeom) and implies(TY == mjCNSTR_EQUALITY, 0 <= ID and ID < m.neq)',
+        'model_ids': 'forall(lambda j: implies(0 <= j and j < m.njnt, 0 <= m.jnt_dofadr[j] and m.jnt_dofadr[j] < m.nv)) and '
+                     'forall(lambda g: implies(0 <= g and g < m.ngeom, BODY_OK(m.geom_bodyid[g]))) and forall(lambda s: implies(0 <= s and s < m.nsite, BODY_OK(m.site_bodyid[s]))) and '
+                     'forall(lambda k: implies(0 <= k and k < m.neq and (m.eq_type[k] == mjEQ_CONNECT or m.eq_type[k] == mjEQ_WELD), '
+                     '(BODY_OK(m.eq_obj1id[k]) and BODY_OK(m.eq_obj2id[k])) if m.eq_objtype[k] != mjOBJ_SITE else '
+                     '(0 <= m.eq_obj1id[k] and m.eq_obj1id[k] < m.nsite and 0 <= m.eq_obj2id[k] and m.eq_obj2id[k] < m.nsite)))',
+    },
+    'assigns': ['iter.*nonptr'],
+    'ensures': {
+        'dof_friction_touches_the_tree_of_its_dof': 'implies(TY == mjCNSTR_FRICTION_DOF, SPECIAL(m.dof_treeid[ID], -2))',
+        'joint_limit_touches_the_tree_of_the_joints_first_dof': 'implies(TY == mjCNSTR_LIMIT_JOINT, SPECIAL(m.dof_treeid[m.jnt_dofadr[ID]], -2))',
+        'geom_contact_touches_the_trees_of_both_geoms': 'implies(CONTACT and GEOMS, SPECIAL(m.body_treeid[m.geom_bodyid[G(0)]], m.body_treeid[m.geom_bodyid[G(1)]]))',
+        'connect_or_weld_touches_the_trees_of_both_bodies': 'implies(CW, SPECIAL(m.body_treeid[EB(m.eq_obj1id[ID])], m.body_treeid[EB(m.eq_obj2id[ID])]))',
+        'two_static_sides_never_returned': 'implies((CONTACT and GEOMS) or CW, iter.trees[0] >= 0 or iter.trees[1] >= 0)',
+        'everything_else_scans_the_jacobian_row_from_its_start': 'implies(not (TY == mjCNSTR_FRICTION_DOF or TY == mjCNSTR_LIMIT_JOINT or (CONTACT and GEOMS) or CW), '
+                                                                 'iter.trees[0] == -2 and iter.trees[1] == -2 and iter.jac_idx == 0 and iter.tree_prev == -1)',
+    },
+}
+
+
 def contracts():
     return {'__defs__': DEFS, 'mj_dsuRoot': ROOT, 'mj_dsuMerge': MERGE, 'mj_dsuAssign': ASSIGN}
+
+
+def iter_contracts():
+    return {'__defs__': {}, 'treeIterInit': ITER_INIT}
 
 
 def next_contracts(sparse):
